@@ -39,7 +39,7 @@ import wpull.application.app as wapp
 
 simset.inject(wpool, wabs, wastream, wpipe, wshtml, wscss, wsjs, wssm, wobserver, whook)
 
-BUDGETS = {'C01': (75, 1200, 10), 'C02': (75, 1200, 10), 'C20': (75, 1200, 10)}
+BUDGETS = {'C01': (75, 1200, 10), 'C02': (75, 1200, 10), 'C20': (150, 1200, 10)}
 LEVELS = {'C01': 'exploration', 'C02': 'exploration', 'C20': 'exploration'}
 WALL_LIMIT = {('C02', 'quick'): 240, ('C02', 'thorough'): 240}
 PROBES = {
